@@ -41,7 +41,7 @@ NoReq == [c |-> -1, sid |-> <<>>, hdr |-> [maj |-> 0, min |-> 0, ty |-> 0, seq |
           ck |-> <<>>, cb |-> <<>>, wire |-> <<>>]
 ObsInit == [req |-> NoReq, pend |-> FALSE, wr |-> 0, inv |-> 0, sinks |-> <<>>,
             t |-> << >>, reps |-> << >>, nfeed |-> << >>, iso |-> {}, bad |-> {}, noisy |-> FALSE, overlap |-> FALSE, acctpend |-> FALSE, acctdone |-> FALSE, acctb |-> <<>>,
-            ofeeds |-> <<>>, osinks |-> <<>>, oack |-> {}, ojudged |-> FALSE]
+            ofeeds |-> <<>>, osinks |-> <<>>, oack |-> {}, ojudged |-> FALSE, pw |-> <<>>, plain |-> {}]
 EmptyFn == [x \in {} |-> 0]
 
 \* the secret configuration a connection is bound to (0 = refused), per the Admission oracle
@@ -229,6 +229,15 @@ Next ==
              /\ LET h == DecHeader(e.h).v  key == << e.c, h.sid >> IN
                 o' = [o EXCEPT !.acctpend = FALSE, !.acctdone = FALSE, !.req = [c |-> e.c, sid |-> h.sid, hdr |-> h, b |-> ClrTab[l], l |-> l, ck |-> e.ck, cb |-> e.cb, wire |-> e.b],
                                !.pend = TRUE, !.wr = 0, !.inv = 0, !.sinks = <<>>,
+                               \* the password this request presents, decided on the transcript as it stands when the request arrives
+                               \* (a log call made after the reply was written still belongs to this request)
+                               !.pw = IF ScopeIdx(e.c) > 0 THEN PwOfReq(Get(o.t, key, T0), h, ClrTab[l]) ELSE <<>>,
+                               \* fields of the same login the server logs as what they are (user name, port, remote address)
+                               !.plain = IF ScopeIdx(e.c) = 0 THEN {}
+                                         ELSE IF Get(o.t, key, T0).stage = "asked_pass" THEN { Get(o.t, key, T0).user }
+                                         ELSE IF DecAuthenStart(ClrTab[l]).ok
+                                              THEN { DecAuthenStart(ClrTab[l]).v.user, DecAuthenStart(ClrTab[l]).v.port, DecAuthenStart(ClrTab[l]).v.raddr }
+                                              ELSE {},
                                !.ofeeds = IF o.overlap /\ ~o.ojudged THEN Append(@, [c |-> e.c, sid |-> h.sid, ty |-> h.ty, b |-> ClrTab[l]]) ELSE @,
                                !.nfeed = Put(@, key, Get(@, key, 0) + 1)]
              /\ UNCHANGED << sc, cfg, conns, ms, div >>
@@ -295,16 +304,12 @@ Next ==
              \* C18: while a request that carries a password is being handled no log call may show that password;
              \* the connection's shared secret may never be shown
              /\ LET shown == { e.hits[i] : i \in 1..Len(e.hits) }
-                    pw == IF o.pend /\ ScopeIdx(o.req.c) > 0 THEN PwOfReq(Get(o.t, << o.req.c, o.req.sid >>, T0), o.req.hdr, o.req.b) ELSE <<>>
+                    pw == IF o.pend /\ ScopeIdx(o.req.c) > 0 THEN o.pw ELSE <<>>
                     keys == { cfg.secrets[k].key : k \in 1..Len(cfg.secrets) }
                     \* fields of the same login the server logs as what they are (user name, port, remote address): a client that
                     \* types its password at the user-name prompt has put those octets there itself - showing the user name
                     \* is not showing the password
-                    tt == Get(o.t, << o.req.c, o.req.sid >>, T0)
-                    plain == IF ~(o.pend /\ ScopeIdx(o.req.c) > 0) THEN {}
-                             ELSE IF tt.stage = "asked_pass" THEN { tt.user }
-                             ELSE IF DecAuthenStart(o.req.b).ok THEN { DecAuthenStart(o.req.b).v.user, DecAuthenStart(o.req.b).v.port, DecAuthenStart(o.req.b).v.raddr }
-                             ELSE {}
+                    plain == IF o.pend /\ ScopeIdx(o.req.c) > 0 THEN o.plain ELSE {}
                     new == Tags({ << pw # <<>> /\ pw \in shown /\ pw \notin plain, "C18" >>, << shown \cap keys # {}, "C18" >> })
                 IN o' = [o EXCEPT !.bad = @ \cup new] /\ (IF new = {} THEN TRUE ELSE PrintT(<< "PV", new, sc, l, "log" >>))
              /\ UNCHANGED << sc, cfg, conns, ms, div >>
